@@ -300,8 +300,8 @@ def gen_io(rng, n):
         elif mchoice == 'named':
             names = list(e['mask']) if e and 'mask' in e else []
             pick = [(nm, rng.random() < 0.7) for nm in names if rng.random() < 0.7]
-            if rng.random() < 0.12:
-                pick.append(('nosuch', True))
+            if rng.random() < 0.15:
+                pick.append(('nosuch', rng.random() < 0.5))      # an undefined name is refused whatever value it carries
             mline = '|'.join('%s~%s' % (k, b01(v)) for k, v in pick) if pick else '.'
             form = rng.choice(['list', 'dict', 'obj'])
             if form == 'list' and all(v for _, v in pick):
@@ -332,6 +332,26 @@ def gen_io(rng, n):
         out.append(Case('io_control', lambda c, did=did, cp=cp, pyvals=pyvals, masks=masks: c.io_control(did, cp, pyvals, masks), line, in_dom, canon,
                         {'input_output': io_config(default)}, view=view, sid=0x2F))
     return out
+
+
+def helper_obj(rng, key, v):
+    """the helper classes a caller may pass instead of a number (a Dtc object for a DTC number, Dtc.Status / Severity / DtcClass for the masks): the value such an
+    object holds is checked like the number itself - in range it gives the same frame, out of range it is refused"""
+    if not isinstance(v, int) or isinstance(v, bool) or rng.random() < 0.6:
+        return v
+    from udsoncan import Dtc
+    try:
+        if key == 'dtc':
+            return Dtc(v)
+        if key == 'sm' and 0 <= v <= 0xFF:
+            return Dtc.Status.from_byte(v)
+        if key == 'sev' and 0 <= v <= 0xFF and v & 0x1F == 0:
+            return Dtc.Severity.from_byte(v)
+        if key == 'cls' and 0 <= v <= 0x1F:
+            return Dtc.DtcClass.from_byte(v)
+    except Exception:  # noqa
+        return v
+    return v
 
 
 DTC_WRAPPERS = {
@@ -386,7 +406,7 @@ def gen_dtc(rng, n):
             for k in keys:
                 mx = DTC_RANGE[k] if not (sf == 0x16 and k == 'ext') else 0xEF
                 p[k] = rng.choice([0, 1, mx - 1, mx, rng.randrange(0, mx + 1)]) if rng.random() < 0.88 else rng.choice([-1, mx + 1, mx + 0x100])
-            args = [p[k] for k in keys]
+            args = [helper_obj(rng, k, p[k]) for k in keys]
             invoke = lambda c, name=name, args=args: getattr(c, name)(*args)
             site = name
         else:
@@ -407,7 +427,7 @@ def gen_dtc(rng, n):
                     sup = True
             if 'sev' in need and 'sev' in p and rng.random() < 0.25:
                 p['cls'] = rng.choice([0, 1, 0x1F]) if rng.random() < 0.8 else rng.choice([0x20, 0x21, -1])
-            kwargs = {DTC_KW[k]: v for k, v in p.items()}
+            kwargs = {DTC_KW[k]: helper_obj(rng, k, v) for k, v in p.items()}
             invoke = lambda c, sf=sf, kwargs=kwargs: c.read_dtc_information(sf, **kwargs)
             site = 'read_dtc_information'
         layout = DTC_LAYOUT.get(sf)
@@ -628,10 +648,20 @@ def gen_ddd(rng, n):
             ents.append((s, pos, size))
         in_dom = 0 <= did <= 0xFFFF and k >= 1 and all(0 <= s <= 0xFFFF and 0 <= p <= 0xFF and 0 <= z <= 0xFF for s, p, z in ents)
 
-        def invoke(c, did=did, ents=ents):
-            d = DynamicDidDefinition()
-            for s, p, z in ents:
-                d.add(source_did=s, position=p, memorysize=z)
+        form = rng.choice(['kw', 'positional', 'constructor'])     # the documented ways of giving a piece: keywords, positionally (source_did, position, memorysize), to the constructor
+
+        def invoke(c, did=did, ents=ents, form=form):
+            if form == 'constructor' and ents:
+                d = DynamicDidDefinition(ents[0][0], ents[0][1], ents[0][2])
+                rest = ents[1:]
+            else:
+                d = DynamicDidDefinition()
+                rest = ents
+            for s, p, z in rest:
+                if form == 'kw':
+                    d.add(source_did=s, position=p, memorysize=z)
+                else:
+                    d.add(s, p, z)
             return c.dynamically_define_did(did, d)
         line = 'enc e=dddid did=%d entries=%s' % (did, ';'.join('%d:%d:%d' % e for e in ents) if ents else '-')
         canon = 'dddByDid %d %s' % (did, ';'.join('%d:%d:%d' % e for e in ents)) if in_dom else None
